@@ -73,7 +73,7 @@ class Raise:
 
 class Ev:
     """One event of a trace."""
-    __slots__ = ('kind', 'node', 'fn', 'd', 'txn', 'handlers', 'seq', 'stack')
+    __slots__ = ('kind', 'node', 'fn', 'd', 'txn', 'handlers', 'seq', 'stack', 'sites')
 
     def __init__(self, kind, node, fn, d=None):
         self.kind = kind
@@ -84,6 +84,7 @@ class Ev:
         self.handlers = ()
         self.seq = -1
         self.stack = ()
+        self.sites = ()
 
     @property
     def line(self):
